@@ -325,7 +325,7 @@ fn run_path<G: GroupApi>(path: &[String]) -> Result<St<G>, Bad> {
 pub fn run(run: &Run) {
     let (d1, d2, dp) = match run.tier {
         mccore::Tier::Quick => (6usize, 6usize, 3usize),
-        mccore::Tier::Thorough => (8, 7, 4),
+        mccore::Tier::Thorough => (9, 8, 4),
     };
     let (d1, d2, dp) = (
         std::env::var("C16_DEPTH_G1").ok().and_then(|s| s.parse().ok()).unwrap_or(d1),
@@ -382,7 +382,7 @@ pub fn meta(run: &Run) -> Meta {
                depth must give g^(dd'). A non-root state = one distinct non-trivial history (its shortest operation sequence)."
             .into(),
         engine: "sm9mc-bfs + sm9mc-grid".into(),
-        bounds: json!({"depth_G1": run.tier.pick(6, 8), "depth_G2": run.tier.pick(6, 7), "pairing_depth": run.tier.pick(3, 4)}),
+        bounds: json!({"depth_G1": run.tier.pick(6, 9), "depth_G2": run.tier.pick(6, 8), "pairing_depth": run.tier.pick(3, 4)}),
         assumptions: vec!["operations that encode the identity are disabled by the model (documented unwrap panic, outside the property)".into()],
     }
 }
